@@ -15,10 +15,14 @@ Definition Pre_jitthreshold (args : list value) : Prop :=
 
 Definition ann_jitthreshold (l : nat) : annot :=
   match l with
-  | 0%nat => ALoop [("t", KInt); ("k", KInt); ("first", KAny); ("last", KAny);
+  (* cut point after the dispatch on [method]: ix is a 1-D array of n cells *)
+  | 0%nat => ALoop [("ix", KArr1)] (fun st0 st => zlen (getD st "ix") = getZ st0 "n")
+  (* cut point after the "start of a run" block *)
+  | 9%nat => ALoop [("ix_start", KArr); ("new_start", KArr)] (fun _ _ => True)
+  | 4%nat => ALoop [("t", KInt); ("k", KInt); ("first", KAny); ("last", KAny);
                     ("ix_start", KArr); ("ix_end", KArr); ("new_start", KArr); ("new_end", KArr)]
                    (fun st0 st => 0 <= getZ st "k" < getZ st0 "m")
-  | 1%nat => ALoop [("k", KInt)]
+  | 5%nat => ALoop [("k", KInt)]
                    (fun st0 st => getZ st0 "k" <= getZ st "k" < getZ st0 "m")
   | _ => ANone
   end.
